@@ -12,14 +12,25 @@ Import ListNotations.
 Open Scope string_scope.
 Open Scope list_scope.
 
+(* the variants of ExternalEquivalenceTaskError / ExternalEquivalenceTaskWarning WITH the values
+   they carry (audit B16: the payload is part of the compared output) *)
 Inductive ext_error :=
-| UnsupportedFormulaRepresentation | NonTightProgram | ProgramContainsPrivateRecursion
-| InputOutputPredicatesOverlap | InputPredicateInRuleHead | OutputPredicateInUserGuideAssumption
-| OutputPredicateInSpecificationAssumption | PlaceholdersWithIdenticalNamesDifferentSorts
-| AssumptionContainsNonInputSymbols | SpecificationContainsUnsupportedRoles
+| UnsupportedFormulaRepresentation
+| NonTightProgram (p : program)
+| ProgramContainsPrivateRecursion (p : program)
+| InputOutputPredicatesOverlap (ps : list pred)
+| InputPredicateInRuleHead (ps : list pred)
+| OutputPredicateInUserGuideAssumption (ps : list pred)
+| OutputPredicateInSpecificationAssumption (ps : list pred)
+| PlaceholdersWithIdenticalNamesDifferentSorts (name : string)
+| AssumptionContainsNonInputSymbols (a : aformula_annot)
+| SpecificationContainsUnsupportedRoles (a : aformula_annot)
 | ProofOutlineError (e : po_error).
 Inductive ext_warning :=
-| WNonTightProgram | WInconsistentDirectionAnnotation | WInvalidRoleWithinUserGuide | WDefinitionWithWarning.
+| WNonTightProgram (p : program)
+| WInconsistentDirectionAnnotation (a : aformula_annot)
+| WInvalidRoleWithinUserGuide (a : aformula_annot)
+| WDefinitionWithWarning (w : po_warning).
 
 Record ext_task := mkext {
   et_specification : program + specification;
@@ -136,7 +147,7 @@ Definition validated_left_step (brk : bool) (s : vacc) (a : aformula_annot) : op
       match an_dir a with
       | DUniversal => Some (mkvacc (va_stable s ++ [into_problem_formula a PAxiom]) (va_fp s) (va_fc s) (va_bp s) (va_bc s) (va_warn s))
       | DForward => Some (mkvacc (va_stable s) (va_fp s ++ [into_problem_formula a PAxiom]) (va_fc s) (va_bp s) (va_bc s) (va_warn s))
-      | DBackward => Some (mkvacc (va_stable s) (va_fp s) (va_fc s) (va_bp s) (va_bc s) (va_warn s ++ [WInconsistentDirectionAnnotation]))
+      | DBackward => Some (mkvacc (va_stable s) (va_fp s) (va_fc s) (va_bp s) (va_bc s) (va_warn s ++ [WInconsistentDirectionAnnotation a]))
       end
   | RSpec =>
       let fp := if dir_forward (an_dir a) then va_fp s ++ [into_problem_formula a PAxiom] else va_fp s in
@@ -149,7 +160,7 @@ Definition validated_right_step (brk : bool) (s : vacc) (a : aformula_annot) : o
   | RAssumption =>
       match an_dir a with
       | DUniversal => Some (mkvacc (va_stable s ++ [into_problem_formula a PAxiom]) (va_fp s) (va_fc s) (va_bp s) (va_bc s) (va_warn s))
-      | DForward => Some (mkvacc (va_stable s) (va_fp s) (va_fc s) (va_bp s) (va_bc s) (va_warn s ++ [WInconsistentDirectionAnnotation]))
+      | DForward => Some (mkvacc (va_stable s) (va_fp s) (va_fc s) (va_bp s) (va_bc s) (va_warn s ++ [WInconsistentDirectionAnnotation a]))
       | DBackward => Some (mkvacc (va_stable s) (va_fp s) (va_fc s) (va_bp s ++ [into_problem_formula a PAxiom]) (va_bc s) (va_warn s))
       end
   | RSpec =>
@@ -231,6 +242,14 @@ Fixpoint placeholder_clash (l : list fconst) (names : list string) : bool :=
   | [] => false
   | c :: l' => if memb string_dec (fcname c) names then true else placeholder_clash l' (names ++ [fcname c])
   end.
+(* ensure_placeholder_name_uniqueness: the name it returns (`p.name` of the first placeholder whose
+   name was seen before); None <-> placeholder_clash = false (Proofs/ExternalOk.v) *)
+Fixpoint placeholder_clash_name (l : list fconst) (names : list string) : option string :=
+  match l with
+  | [] => None
+  | c :: l' => if memb string_dec (fcname c) names then Some (fcname c)
+               else placeholder_clash_name l' (names ++ [fcname c])
+  end.
 
 Definition is_assumption (a : aformula_annot) : bool := match an_role a with RAssumption => true | _ => false end.
 
@@ -247,6 +266,32 @@ Definition spec_assumptions_no_output (outputs : list pred) (fs : list aformula_
 (* ensure_specification_roles_are_supported *)
 Definition spec_roles_supported (fs : list aformula_annot) : bool :=
   forallb (fun a => match an_role a with RAssumption | RSpec => true | _ => false end) fs.
+
+(* the values the three loops return (the loops stop at the first offending formula); each is None
+   exactly when the boolean above is true (Proofs/ExternalOk.v first_*_none) *)
+(* ensure_assumptions_only_contain_input_symbols: `formula.clone()` of the first assumption with
+   `predicates.difference(&input_symbols).next().is_some()` *)
+Definition first_non_input_assumption (program_input_symbols inputs : list pred) (fs : list aformula_annot)
+  : option aformula_annot :=
+  find (fun a => is_assumption a &&
+                 negb (subsetb pred_dec (predicates (an_formula a)) (iset_extend pred_dec program_input_symbols inputs))) fs.
+(* `formula.predicates().into_iter().filter(|p| output_predicates.contains(p)).collect()` *)
+Definition output_overlap (outputs : list pred) (a : aformula_annot) : list pred :=
+  filter (fun p => memb pred_dec p outputs) (predicates (an_formula a)).
+(* ensure_specification_assumptions_do_not_contain_output_predicates: the overlap of the first
+   assumption whose overlap is not empty *)
+Fixpoint first_output_overlap (outputs : list pred) (fs : list aformula_annot) : option (list pred) :=
+  match fs with
+  | [] => None
+  | a :: fs' =>
+      if is_assumption a
+      then if is_nil (output_overlap outputs a) then first_output_overlap outputs fs'
+           else Some (output_overlap outputs a)
+      else first_output_overlap outputs fs'
+  end.
+(* ensure_specification_roles_are_supported: the first formula that is neither assumption nor spec *)
+Definition first_unsupported_role (fs : list aformula_annot) : option aformula_annot :=
+  find (fun a => match an_role a with RAssumption | RSpec => false | _ => true end) fs.
 
 (* ---------- the empty completed definitions of missing output predicates (/repo 70e6ace, 18b2e85) ----------
    `forall V1..Vn (p(V1..Vn) <-> #false)`: atomic_formula_from + the completed definition with no
@@ -286,8 +331,8 @@ Variable simp_classic : formula -> formula.
 
 Definition ensure_program_tightness (t : ext_task) (p : program) : result (list ext_warning) ext_error :=
   if is_tight p then Ok []
-  else if et_bypass_tightness t then Ok [WNonTightProgram]
-  else Err NonTightProgram.
+  else if et_bypass_tightness t then Ok [WNonTightProgram p]
+  else Err (NonTightProgram p).
 
 Definition private_predicates (public : list pred) (l : list pred) : list pred :=
   filter (fun p => negb (memb pred_dec p public)) l.
@@ -308,32 +353,44 @@ Definition external_validate (t : ext_task) : result (list ext_warning) ext_erro
   match et_repr t with
   | ReprMu => Err UnsupportedFormulaRepresentation
   | ReprTauStar =>
-  if negb (is_nil (iset_inter pred_dec inputs outputs)) then Err InputOutputPredicatesOverlap
+  if negb (is_nil (iset_inter pred_dec inputs outputs))
+  then Err (InputOutputPredicatesOverlap (iset_inter pred_dec inputs outputs))
   else match ensure_program_tightness t (et_program t) with
   | Err e => Err e | Panic => Panic
   | Ok w1 =>
-  if has_private_recursion (et_program t) prog_private then Err ProgramContainsPrivateRecursion
+  if has_private_recursion (et_program t) prog_private
+  then Err (ProgramContainsPrivateRecursion (et_program t))
   else if negb (is_nil (iset_inter pred_dec inputs (head_predicates_fol (et_program t))))
-       then Err InputPredicateInRuleHead
-  else if placeholder_clash (ug_placeholders u) [] then Err PlaceholdersWithIdenticalNamesDifferentSorts
-  else if negb (assumptions_only_input [] inputs (ug_formulas u)) then Err AssumptionContainsNonInputSymbols
-  else
+       then Err (InputPredicateInRuleHead (iset_inter pred_dec inputs (head_predicates_fol (et_program t))))
+  else match placeholder_clash_name (ug_placeholders u) [] with
+  | Some n => Err (PlaceholdersWithIdenticalNamesDifferentSorts n)
+  | None =>
+  match first_non_input_assumption [] inputs (ug_formulas u) with
+  | Some a => Err (AssumptionContainsNonInputSymbols a)
+  | None =>
     match et_specification t with
     | inl p =>
         match ensure_program_tightness t p with
         | Err e => Err e | Panic => Panic
         | Ok w2 =>
-            if has_private_recursion p spec_private then Err ProgramContainsPrivateRecursion
+            if has_private_recursion p spec_private then Err (ProgramContainsPrivateRecursion p)
             else if negb (is_nil (iset_inter pred_dec inputs (head_predicates_fol p)))
-                 then Err InputPredicateInRuleHead
+                 then Err (InputPredicateInRuleHead (iset_inter pred_dec inputs (head_predicates_fol p)))
             else Ok (w1 ++ w2)
         end
     | inr s =>
-        if negb (spec_assumptions_no_output outputs s) then Err OutputPredicateInSpecificationAssumption
-        else if negb (assumptions_only_input prog_private inputs s) then Err AssumptionContainsNonInputSymbols
-        else if negb (spec_roles_supported s) then Err SpecificationContainsUnsupportedRoles
-        else Ok w1
+        match first_output_overlap outputs s with
+        | Some ps => Err (OutputPredicateInSpecificationAssumption ps)
+        | None =>
+        match first_non_input_assumption prog_private inputs s with
+        | Some a => Err (AssumptionContainsNonInputSymbols a)
+        | None =>
+        match first_unsupported_role s with
+        | Some a => Err (SpecificationContainsUnsupportedRoles a)
+        | None => Ok w1
+        end end end
     end
+  end end
   end
   end.
 
@@ -399,10 +456,10 @@ Fixpoint user_guide_assumptions (outputs : list pred) (m : placeholders) (fs : l
   | [] => Ok (acc, ws)
   | a :: fs' =>
       if is_assumption a then
-        if forallb (fun p => negb (memb pred_dec p outputs)) (predicates (an_formula a))
+        if is_nil (output_overlap outputs a)
         then user_guide_assumptions outputs m fs' (acc ++ [rp_annot m a]) ws
-        else Err OutputPredicateInUserGuideAssumption
-      else user_guide_assumptions outputs m fs' acc (ws ++ [WInvalidRoleWithinUserGuide])
+        else Err (OutputPredicateInUserGuideAssumption (output_overlap outputs a))
+      else user_guide_assumptions outputs m fs' acc (ws ++ [WInvalidRoleWithinUserGuide a])
   end.
 
 (* ExternalEquivalenceTask::decompose *)
@@ -445,7 +502,7 @@ Definition external_decompose (t : ext_task) : result (list ext_warning * list p
                   | Err e => Err (ProofOutlineError e)
                   | Panic => Panic
                   | Ok (o, pw) =>
-                      let w2 := map (fun _ => WDefinitionWithWarning) pw in
+                      let w2 := map WDefinitionWithWarning pw in
                       match validated_decompose
                               (mkvalidated lft rgt uga o (et_decomposition t) (et_direction t) (et_break t)) with
                       | Err e => Err e
